@@ -99,4 +99,3 @@ func cmdRun(args []string) {
 		}
 	}
 }
-
